@@ -174,9 +174,21 @@ func init() {
 		return vBool(isOpaqueStr(args[0]))
 	})
 	reg("zzrt.Printf", func(e *Engine, fr *frame, args []V) V {
-		if e.cfg.Trace {
-			fmt.Println("zzrt.Printf:", args)
+		format, _ := concStr(args[0])
+		s, _ := e.sprintf(fr, format, args[1].slice())
+		bs := strBytes(s)
+		out := make([]byte, len(bs))
+		for i, b := range bs {
+			switch b.K {
+			case KInt:
+				out[i] = byte(b.N)
+			case KSym:
+				out[i] = byte(e.ts.Eval(b.term(), e.model))
+			default:
+				out[i] = '?'
+			}
 		}
+		e.debugOut = append(e.debugOut, string(out))
 		return V{}
 	})
 
@@ -732,3 +744,4 @@ func (e *Engine) methodByName(t types.Type, name string) *ssa.Function {
 }
 
 var _ = sort.Ints
+var _ = fmt.Sprint
